@@ -63,6 +63,41 @@ def gen_case(ctx):
     }
 
 
+HIST_OPS = ['iand', 'ior', 'ixor', 'invert', 'reverse', 'set', 'ilshift', 'irshift', 'rol', 'ror', 'append', 'prepend', 'overwrite',
+            'setitem_bits', 'setitem_int', 'byteswap', 'imul', 'delitem', 'insert', 'replace', 'clear']
+
+
+def gen_history_case(ctx):
+    """The object searched is not fresh: it has been searched and changed in place before (data = content after the history)."""
+    from rv.props import _mut
+    rng = ctx.rng
+    c = gen_case(ctx)
+    c['cls'] = rng.choice(util.MUTABLE)
+    m = c['data'] if len(c['data']) <= 4200 else c['data'][:4200]
+    c['data0'] = m
+    hist = []
+    with util.options(bytealigned=c['oba'], lsb0=False):
+        for _ in range(rng.choice([1, 1, 2, 3])):
+            op, a = _mut.gen_step(rng, len(m), HIST_OPS, max_len=6000)
+            if _mut.uses_self(a):
+                continue
+            try:
+                m, _r = M.apply(m, op, _mut.model_args(m, op, a))
+            except M.Expect:
+                continue                    # a step the model expects to raise (or that sits in a tolerance zone) is not part of a history
+            hist.append([op, a])
+    c['history'] = hist
+    c['data'] = m
+    L = len(m)
+    pl = rng.choice([8, 8, 16, 24, 3, 9])
+    if L >= pl and rng.random() < 0.8:
+        i = rng.randrange(0, L - pl + 1)
+        if rng.random() < 0.6:
+            i -= i % 8
+        c['pat'] = util.operand_spec(rng, m[i:i + pl], ['Bits', 'BitArray', 'str', 'bytes', 'bitarray'])
+    return c
+
+
 def gen_long_case(ctx):
     """Long, almost empty data with the pattern planted next to the places where a chunked or byte-windowed search
     changes regime: multiples of 8192 bits counted from either end of the data or of the window, byte boundaries."""
@@ -143,7 +178,19 @@ def judge(ctx, c):
                          f'{method}: got {got[0]}:{str(gv)[:120]} expected {exp[0]}:{str(exp[1])[:120]}')
 
     with util.options(bytealigned=oba, lsb0=False):
-        s = mk(cls, d)
+        if c.get('history') is not None:
+            from rv.props import _mut
+            s = mk(cls, c['data0'])
+            for op_, a_ in c['history']:
+                # searches before every change (whatever a search may remember about the object must not outlive the change)
+                call(lambda: (s.find(P(), bytealigned=True), list(s.findall(P(), bytealigned=True)), s.rfind(P()), list(s.split(P(), bytealigned=True))))
+                call(lambda: _mut.do(s, op_, list(a_)))
+                ctx.op('history-step:' + op_)
+            if B(s) != d:
+                ctx.mismatch('C07|history|content-after-mutators|differs-from-model', c, f'{B(s)[:80]} vs {d[:80]}')
+                return
+        else:
+            s = mk(cls, d)
         # the windowed occurrences
         o = M.occ(d, p, w[0], w[1], eff) if (p and w is not None) else None
         if o is not None and L <= 300:
@@ -250,7 +297,7 @@ def run(ctx):
         directed(ctx)
     n = ctx.scale(36000, 600000)
     for i in range(n):
-        c = gen_long_case(ctx) if i % 12 == 5 else gen_case(ctx)
+        c = gen_long_case(ctx) if i % 12 == 5 else gen_history_case(ctx) if i % 6 == 1 else gen_case(ctx)
         ctx.run_case(judge, c)
         if i % 997 == 0:
             ctx.sample(short(c))
